@@ -3,6 +3,7 @@ package vt
 import (
 	"bytes"
 	"fmt"
+	"io"
 	"math"
 
 	"seehuhn.de/go/pdf"
@@ -138,3 +139,30 @@ func show(obj pdf.Object) string {
 
 // Show renders an object for messages.
 func Show(obj pdf.Object) string { return show(obj) }
+
+// ChunkSizes are the buffer sizes used for the second, piecewise read of
+// decoded stream data (see ReadInChunks).
+var ChunkSizes = []int{1, 2, 3, 5, 7, 15, 16, 17, 31, 33, 64, 100}
+
+// ReadInChunks reads r to its end with Read calls of at most k bytes, the way
+// io.ReadAll or io.Copy do: it stops at the first error, and io.EOF — with or
+// without data — ends the data.  A reader that reports io.EOF while it still
+// holds data loses that data here, as it would with any consumer that follows
+// the io.Reader contract.
+func ReadInChunks(r io.Reader, k int) ([]byte, error) {
+	if k < 1 {
+		k = 1
+	}
+	buf := make([]byte, k)
+	var out []byte
+	for {
+		n, err := r.Read(buf)
+		out = append(out, buf[:n]...)
+		if err == io.EOF {
+			return out, nil
+		}
+		if err != nil {
+			return out, err
+		}
+	}
+}
